@@ -885,6 +885,20 @@ def _replay_history(cuqi, model, meta, dgs, rgs):
             pass
 
 
+def tol_cell(meta):
+    """tolerance cell class (1e-9 relative instead of exact): KLExpansion geometries (real-valued DST) and PDE operators
+    that are not unit triangular (LU with pivoting rounds)"""
+    if "kl" in (meta["dg"].get("kind"), meta["rg"].get("kind")):
+        return True
+    op = meta.get("pde_op")
+    if op and meta["mk"].startswith("pde"):
+        m = len(op)
+        upper = all(op[i][j] == 0 for i in range(m) for j in range(i))
+        lower = all(op[i][j] == 0 for i in range(m) for j in range(i + 1, m))
+        return not ((upper or lower) and all(op[i][i] == 1 for i in range(m)))
+    return False
+
+
 def run_forward_case(cuqi, meta):
     """meta: op=forward, mk, A, cs, b, dg, rg, form, vals (list of columns, strings), flag"""
     dgs, rgs = Geo(**meta["dg"]), Geo(**meta["rg"])
@@ -920,7 +934,7 @@ def run_forward_case(cuqi, meta):
                 raise Refuse("shape")
             ecols.append(rgs.o_fun2par(o_F(A, cs, b, f)))
         ekind = {"par": 0, "fun": 0, "arrpar": 1, "arrfun": 1, "arrdefault": 1, "samples": 2, "samplesfun": 2, "subpar": 1, "subfun": 1}[base]
-        exp = ("val", ekind, ecols) + ((F(1, 10 ** 9),) if "kl" in (dgs.kind, rgs.kind) else ())
+        exp = ("val", ekind, ecols) + ((F(1, 10 ** 9),) if tol_cell(meta) else ())
     except Refuse as e:
         exp = ("err", str(e))
     return obs, exp, model
@@ -979,12 +993,15 @@ def forward_case(cuqi, meta, q):
     if meta.get("ipk") and q[5]:      # .funvals tests `is_par is True`: a numpy.bool_/int flag is never that -> used unconverted
         xin = "(InArr %s false %s)" % (dgs.coq(), qv(vals[0]))
     okflag = obs[3] if obs[0] == "val" and obs[1] not in (5, 6, 7, 8) else True      # (a subclass instance's label is part of its kind)
-    expr = "%s %s %s %s %s %s %s %s %s" % ("check_forward_tol" if "kl" in (dgs.kind, rgs.kind) else "check_forward", coq_quirks(q), fwd, rgs.coq(), dgs.coq(), xin,
+    expr = "%s %s %s %s %s %s %s %s %s" % ("check_forward_tol" if tol_cell(meta) else "check_forward", coq_quirks(q), fwd, rgs.coq(), dgs.coq(), xin,
                                                       cbool(meta["flag"]), coq_obs(obs), cbool(okflag))
     if obs[0] == "val" and len(obs) > 4 and not (obs[4].startswith("float") or obs[4] == "object"):
         expr += " && false"        # DECISION: the output dtype is floating
     fail = compare(obs, exp)
-    sig = forward_signature(meta, obs, exp, q) if fail else ""
+    obs_s = obs
+    if len(exp) > 3 and obs[0] == "val" and exp[0] == "val" and _same(obs[2], exp[2], exp[3]):
+        obs_s = obs[:2] + (exp[2],) + obs[3:]      # tolerance cells: classify on the values up to the tolerance
+    sig = forward_signature(meta, obs_s, exp, q) if fail else ""
     base = meta["form"].split("=")[0]
     trivial = base == "par" and dgs.kind in ("default1d", "cont1d", "discrete") and rgs.kind in ("default1d", "cont1d", "discrete")
     cell = "fwd/%s/%s->%s/%s%s%s" % (meta["mk"], dgs.name(), rgs.name(), meta["form"], "" if meta["flag"] else "/flag=F",
@@ -1391,8 +1408,8 @@ def rand_unit_triangular(rng, m):
 
 
 def rand_operator(rng, m):
-    """unit triangular, or a row-permuted, power-of-two row-scaled unit triangular operator (pivoting and the
-    multipliers stay exact in binary floating point)"""
+    """unit triangular (scipy's solve is exact on these: 0 of 20000 trials inexact), or a row-permuted, row-scaled one
+    (pivoting needed; NOT always exact: cases using it belong to the tolerance cell class, see forward_case)"""
     T = rand_unit_triangular(rng, m)
     if rng.random() < 0.5:
         return T
